@@ -5,12 +5,7 @@
 open Common
 open Decor_model
 
-let rec pos_of_int (i : int) : positive =
-  if i = 1 then XH else if i land 1 = 0 then XO (pos_of_int (i lsr 1)) else XI (pos_of_int (i lsr 1))
-let n_of_int i = if i = 0 then N0 else Npos (pos_of_int i)
-let rec int_of_pos = function XH -> 1 | XO p -> 2 * int_of_pos p | XI p -> 2 * int_of_pos p + 1
-let int_of_n = function N0 -> 0 | Npos p -> int_of_pos p
-
+(* the model is polymorphic in the payload of significant tokens and annotations: plain ints here *)
 let of_base36 (s : string) : int =
   let v = ref 0 in
   String.iter (fun c ->
@@ -18,12 +13,12 @@ let of_base36 (s : string) : int =
     v := !v * 36 + d) s;
   !v
 
-let tok_of (w : string) : tok =
+let tok_of (w : string) : (int, int) tok =
   if w = "" then failwith "empty token" else
   let rest = String.sub w 1 (String.length w - 1) in
   match w.[0] with
-  | 's' -> Sig (n_of_int (of_base36 rest))
-  | 'a' -> Ann (n_of_int (of_base36 rest))
+  | 's' -> Sig (of_base36 rest)
+  | 'a' -> Ann (of_base36 rest)
   | 'c' -> Cmt
   | 'l' -> LF
   | 'b' -> Blank
@@ -35,8 +30,8 @@ let handle (req : string) : string =
     let ts = List.map tok_of (List.filter (fun w -> w <> "") ws) in
     let items = pump ts in
     "ok " ^ String.concat " " (List.map (fun (s, anns) ->
-      "(" ^ string_of_int (int_of_n s) ^
-      String.concat "" (List.map (fun (a, f) -> Printf.sprintf " (%d %d)" (int_of_n a) (if f then 1 else 0)) anns) ^ ")") items)
+      "(" ^ string_of_int s ^
+      String.concat "" (List.map (fun (a, f) -> Printf.sprintf " (%d %d)" a (if f then 1 else 0)) anns) ^ ")") items)
   | _ -> "badreq"
 
 let () = serve handle
